@@ -487,6 +487,15 @@ var commentPool = []string{"", " ", " a comment", " x = 3", "# double", " MSG: p
 	" Standard metadata for higher-level stamped data types.", " see http://wiki.ros.org/msg#Fields", "\tTAB", " a=b # c=d", " string s", "!", " ==="}
 
 func commentText(r *rand.Rand) string {
+	if r.Intn(400) == 0 {
+		// a very long line (beyond the 64 KiB default of line scanners), e.g. an embedded licence or data blob
+		n := 64<<10 + 1 + r.Intn(40<<10)
+		b := make([]byte, n)
+		for i := range b {
+			b[i] = byte('a' + i%26)
+		}
+		return " " + string(b)
+	}
 	if r.Intn(3) == 0 {
 		n := r.Intn(40)
 		b := make([]byte, n)
